@@ -31,7 +31,7 @@ def fail(ident, what, witness, wclass="value"):
 TOK = ["{{a}}", "{{a|x}}", "{{{1}}}", "[[L]]", "[http://x y]", "{|", "|-", "|}", "* ", "# ", ": ", "==h==", "''", "'''",
        "<b>", "</b>", "<nowiki/>", "<nowiki />", "<!--", "-->", "__TOC__", "~~~~", "|", "=", "!", "{{#if:x|y}}", " ", "t",
        "\n", "<pre>", "{{", "}}", "[[", "]]", "<ref>", "{{PAGENAME}}", "_", "a_b", "&#95;", "&amp;", "&", ";", "#", "\"", "-{", "}-",
-       "-{zh-hans:x}-", "~", "~~~", "a~b", "<nowiki>", "<nowiki>[[b]]"]
+       "-{zh-hans:x}-", "~", "~~~", "a~b", "<nowiki>", "<nowiki>[[b]]", "\r\n", "\r", "a\r\nb"]
 INV = {v: k for k, v in _nowiki_map.items()}
 
 
